@@ -295,7 +295,7 @@ func (g *histGen) manID(k int) string {
 	case manStyleCounting:
 		return strconv.Itoa(k)
 	case manStyleDown:
-		return strconv.Itoa(100000 - k)
+		return strconv.Itoa(1000 - k%1000)
 	case manStyleBlocks:
 		return strconv.Itoa(k/3*3 + []int{0, 2, 1}[k%3])
 	case manStyleGapped:
@@ -690,9 +690,10 @@ func genFinite(c *Ctx) {
 				if length == maxLen && n == 3 && !c.Thorough {
 					continue
 				}
-				// below the maximal length also with explicit IDs spelled as numerals (for the longest histories it would triple the run)
+				// up to length 3 also with explicit IDs spelled as numerals (for the longer histories it would triple the run, and
+				// the thorough tier's output is close to what the driver can read back as it is)
 				styles := []int{manStyleName}
-				if length < maxLen {
+				if length <= 3 {
 					styles = exhaustiveStyles
 				}
 				for _, style := range styles {
@@ -711,7 +712,9 @@ func genFinite(c *Ctx) {
 	}
 	nrand, maxOps := 1500, 60
 	if c.Thorough {
-		nrand, maxOps = 40000, 400
+		// sized to stay below what the driver can read back (1.5 GB of observed states); it was 40000 before the directed
+		// sweeps and ID spellings of round 7 were added
+		nrand, maxOps = 37000, 400
 	}
 	for i := 0; i < nrand; i++ {
 		auto := c.R.Bool()
@@ -755,11 +758,7 @@ func validOp(g *histGen, kind int, now int64, r *rng.R) val.V {
 // the five that were put just before the pause.  Afterwards resumptions and further Puts (the ring shrinks step by step).
 func genValidBacklog(c *Ctx) {
 	const ttl = 10
-	sizes := []int{300, 1000}
-	if c.Thorough {
-		sizes = append(sizes, 2000)
-	}
-	for _, n := range sizes {
+	for _, n := range []int{300, 1000} {
 		for _, auto := range []bool{false, true} {
 			for gk, gci := range []val.V{val.L(), val.L(val.Z(1)), val.L(val.Z(3 * ttl))} {
 				for variant := 0; variant < 3; variant++ {
@@ -824,12 +823,10 @@ func genValidHistories(c *Ctx) {
 			}
 		}
 	}
-	// GCInterval assigned between two operations: lowered to 1, raised to 25, switched off (the instant does not matter)
+	// GCInterval assigned between two operations: lowered to 1, raised to 25, switched off (the instant does not matter);
+	// up to length 3 only - the thorough tier's length 4 is as large as the driver can read back without them
 	for _, o := range []int{-2, -3, -4} {
 		full = append(full, step{0, o})
-		if o != -4 {
-			reduced = append(reduced, step{0, o})
-		}
 	}
 	for _, auto := range []bool{false, true} {
 		for _, gci := range []val.V{val.L(), val.L(val.Z(0)), val.L(val.Z(1)), val.L(val.Z(25))} {
